@@ -137,12 +137,16 @@ func checkC18(p *Prog, r *Report) {
 	r.rule("C18.R4", "every decision to (re)transmit arms the timer: rto is taken from / advanced by rx_rto and resendts = current + rto in the same arm", 4)
 	r.rule("C18.R5", "a segment is sent only on evidence: first transmission, fastack >= resent (resent = fastresend if > 0 else never), early retransmit (fastack > 0, nothing new), or _itimediff(current, resendts) >= 0; fastack counts only acks of later segments sent no earlier", 5)
 	r.rule("C18.R8", "acknowledgements are not delayed beyond the flush interval: the interval flush returns (which the session uses to re-arm itself) starts as kcp.interval and is only ever lowered — every other assignment is dominated by 'new value < current value' (or is a min with it). A receiver that sleeps longer than its interval acknowledges late and the sender's timer fires on a clean path", 2)
+	r.rule("C18.R10", "a session is flushed at its own interval whatever else shares the scheduler: after a task is inserted the worker re-arms its timer for the new earliest deadline (= C17.H3) — otherwise acknowledgements wait for the longest interval of any other session on that worker", 1)
+	r.rule("C18.R11", "what the core put on the wire reaches the socket: a batch write that accepts fewer messages than offered is continued (= C09.L10) — datagrams dropped inside the sending host are retransmitted on a clean path", 1)
 	r.rule("C18.R9", "the cumulative acknowledgement always has a carrier: the ack loop of flush always encodes the newest entry (= C02.A2) — a withheld una leaves acknowledged data outstanding at the sender until its timer fires", 1)
 	r.rule("C18.R7", "the sender's view of the peer's window comes from the peer only (constructor default, then the advertised wnd of regular packets): a locally invented larger value puts segments beyond the peer's window on the wire, where they are discarded and retransmitted on a clean path (= C03.P5)", 2)
 	r.rule("C18.R6", "GetRTO returns the core's rx_rto", 1)
 	delegate(p, r, "C03", checkC03, "C03.P5", "C18.R7")
 	delegate(p, r, "C02", checkC02, "C02.A2", "C18.R9")
-	checkFlushIntervalOnlyLowered(p, r)
+	delegate(p, r, "C17", checkC17, "C17.H3", "C18.R10")
+	delegate(p, r, "C09", checkC09, "C09.L10", "C18.R11")
+	checkFlushIntervalOnlyLowered(p, r, "C18.R8")
 
 	rtoMin, rtoMax, rtoNdl := p.ConstInt("IKCP_RTO_MIN"), p.ConstInt("IKCP_RTO_MAX"), p.ConstInt("IKCP_RTO_NDL")
 	fRto := p.Field("KCP", "rx_rto")
@@ -790,7 +794,7 @@ func hasNothingNew(p *Prog, conds []*Term, fi *FuncInfo) bool {
 }
 
 // checkFlushIntervalOnlyLowered: C18.R8.
-func checkFlushIntervalOnlyLowered(p *Prog, r *Report) {
+func checkFlushIntervalOnlyLowered(p *Prog, r *Report, rule string) {
 	flush := p.FuncOf(p.Method("KCP", "flush"))
 	self := tVar(p.selfVar(flush))
 	interval := p.F(self, "KCP", "interval")
@@ -829,7 +833,7 @@ func checkFlushIntervalOnlyLowered(p *Prog, r *Report) {
 		}
 	}
 	if rv == nil || !okRet {
-		r.bad("C18.R8", flush.Name, p.Pos(flush.Node), "interval returned by flush", "flush does not return one variable on all paths (or kcp.interval): the returned interval cannot be followed", "")
+		r.bad(rule, flush.Name, p.Pos(flush.Node), "interval returned by flush", "flush does not return one variable on all paths (or kcp.interval): the returned interval cannot be followed", "")
 		return
 	}
 	fa := p.FactsOf(flush)
@@ -837,7 +841,7 @@ func checkFlushIntervalOnlyLowered(p *Prog, r *Report) {
 	for _, a := range p.Assignments(flush, rv) {
 		if a.Rhs == nil {
 			n++
-			r.bad("C18.R8", flush.Name, p.Pos(a.Node), "assignment to "+rv.Name(), "the returned interval is modified in place", "")
+			r.bad(rule, flush.Name, p.Pos(a.Node), "assignment to "+rv.Name(), "the returned interval is modified in place", "")
 			continue
 		}
 		n++
@@ -857,9 +861,9 @@ func checkFlushIntervalOnlyLowered(p *Prog, r *Report) {
 				}
 			}
 		}
-		r.check(ok, "C18.R8", flush.Name, p.Pos(a.Node), rv.Name()+" = "+exprString(a.Rhs), "kcp.interval, or lowered (new < current)", "the interval flush returns can exceed kcp.interval here: a session driven by that value flushes — and therefore acknowledges — later than its configured interval; with the peer's RTO at its minimum the delayed ack arrives after the timer fired and data is retransmitted on a clean path")
+		r.check(ok, rule, flush.Name, p.Pos(a.Node), rv.Name()+" = "+exprString(a.Rhs), "kcp.interval, or lowered (new < current)", "the interval flush returns can exceed kcp.interval here: a session driven by that value flushes — and therefore acknowledges — later than its configured interval; with the peer's RTO at its minimum the delayed ack arrives after the timer fired and data is retransmitted on a clean path")
 	}
 	if n == 0 {
-		r.bad("C18.R8", flush.Name, p.Pos(flush.Node), "interval returned by flush", "the returned interval is never assigned", "")
+		r.bad(rule, flush.Name, p.Pos(flush.Node), "interval returned by flush", "the returned interval is never assigned", "")
 	}
 }
